@@ -195,7 +195,9 @@ class Sample(object):
         # dominate at long times, but at short times they will not affect the
         # derivative. Choosing a time that satisfies the longest half-life seems
         # to work well enough.
-        initial = max(-log(target/Ia)/La for Ia, La in data)
+        # Products with no activity (e.g., a double capture that underflows at
+        # low fluence) do not need any time; skip them rather than divide by zero.
+        initial = max(-log(target/Ia)/La for Ia, La in data if Ia > 0)
         t, ft = find_root(initial, f, df)
         percent_error = 100*abs(ft)/target
         if percent_error > 0.1:
